@@ -923,6 +923,12 @@ func (c *Conn) advanceFrame() (int, error) {
 
 	if frameType == continuationFrame || frameType == TextMessage || frameType == BinaryMessage {
 
+		if frameType != continuationFrame {
+			// A new message starts here. Continuation frames of an abandoned
+			// previous message that NextReader skipped must not be counted
+			// against this message.
+			c.readLength = 0
+		}
 		c.readLength += c.readRemaining
 		// Don't allow readLength to overflow in the presence of a large readRemaining
 		// counter.
